@@ -115,6 +115,12 @@ def step(sh: Shadow, i: int, op: dict[str, Any], r: dict[str, Any]) -> None:
     t = op.get("t", 0)
     c = op.get("c")
     first = res[0] if res else ""
+    for line in res:
+        if line.startswith("task "):
+            # a suspended lookup returned (or was cancelled): it is no longer outstanding anywhere
+            lid = int(line.split()[1])
+            for y in sh.ctx.values():
+                y.get("suspended", set()).discard(lid)
     if k == "spawn":
         sh.cur[op["t2"]] = sh.cur.get(t)
         return
@@ -240,6 +246,9 @@ def step(sh: Shadow, i: int, op: dict[str, Any], r: dict[str, Any]) -> None:
         return
     if k == "finish":
         monitor_finish(sh, i, op, r, x, c)
+        return
+    if k == "cancelget":
+        monitor_cancelget(sh, i, op, r, x, c)
         return
 
 
@@ -376,13 +385,19 @@ def monitor_get(sh: Shadow, i: int, op: dict[str, Any], r: dict[str, Any], x: di
                 sh.flag("C04", f"step {i}: a lookup racing with a generation in flight (factory {fid}, context {c}) "
                                f"did not wait: {first!r}")
             x.setdefault("waiters", {}).setdefault(fid, []).append(key)
+            x.setdefault("wl", {}).setdefault(fid, []).append(op.get("lid"))
+            if first == "blocked":
+                x.setdefault("suspended", set()).add(op.get("lid"))
             return
         if fac["async"] and fac["gated"]:
             if first != "blocked":
                 sh.flag("C04", f"step {i}: lookup through a suspended factory returned {first!r}")
             x["pending"].add(fid)
             x.setdefault("pending_key", {})[fid] = key
+            x.setdefault("pending_lid", {})[fid] = op.get("lid")
             x["calls"][fid] = x["calls"].get(fid, 0) + 1
+            if first == "blocked":
+                x.setdefault("suspended", set()).add(op.get("lid"))
             return
         val, evs = generation(sh, i, x, c, fac)
         want = "raisedExc exn0" if val is None else f"val {val}"
@@ -411,18 +426,15 @@ def monitor_finish(sh: Shadow, i: int, op: dict[str, Any], r: dict[str, Any], x:
     fac = x["facs"][key]
     n = x["calls"][fid] - 1
     waiters = x.get("waiters", {}).pop(fid, [])
+    wl = x.get("wl", {}).pop(fid, [])
+    x.get("pending_lid", {}).pop(fid, None)
     results = [s for s in r["res"] if s.startswith("task ")]
     if n < fac["failFirst"]:
         # the generation failed: exactly one lookup gets the exception; one waiter (if any still
         # misses) calls the factory again
         if sum("raisedExc" in s for s in results) != 1:
             sh.flag("C04", f"step {i}: failed generation reported to {sum('raisedExc' in s for s in results)} lookups")
-        missing = [k for k in waiters if visible(x, k) is None]
-        if missing:
-            x["pending"].add(fid)
-            x["pending_key"][fid] = missing[0]
-            x["calls"][fid] = x["calls"].get(fid, 0) + 1
-            x.setdefault("waiters", {})[fid] = missing[1:]
+        missing = regenerate(x, fid, waiters, wl, r.get("next"))
         vals = [s for s in results if "val " in s]
         if len(vals) != len(waiters) - len(missing):
             sh.flag("C04", f"step {i}: {len(vals)} waiting lookups returned after a failed generation, expected {len(waiters) - len(missing)}")
@@ -444,6 +456,60 @@ def monitor_finish(sh: Shadow, i: int, op: dict[str, Any], r: dict[str, Any], x:
     prevn = x["gen_n"].setdefault(fid, n)
     if prevn != n:
         sh.flag("C04", f"step {i}: factory {fid} completed a second generation in context {c}")
+
+
+def regenerate(x: dict[str, Any], fid: int, waiters: list[Any], wl: list[Any], nxt: Any) -> list[Any]:
+    """After a generation that produced nothing (it failed, or the lookup running it was cancelled) the lookups that
+    waited for it look again: those that still miss go on - the first to run (`nxt`, as observed) calls the factory
+    itself, the others wait for that generation. Returns the keys still missing."""
+    pairs = [(l, k) for l, k in zip(wl, waiters) if visible(x, k) is None]
+    pairs.sort(key=lambda p: p[0] != nxt)          # stable: the observed first runner, then FIFO
+    if pairs:
+        x["pending"].add(fid)
+        x.setdefault("pending_key", {})[fid] = pairs[0][1]
+        x.setdefault("pending_lid", {})[fid] = pairs[0][0]
+        x["calls"][fid] = x["calls"].get(fid, 0) + 1
+        x.setdefault("waiters", {})[fid] = [k for _, k in pairs[1:]]
+        x.setdefault("wl", {})[fid] = [l for l, _ in pairs[1:]]
+    return [k for _, k in pairs]
+
+
+def monitor_cancelget(sh: Shadow, i: int, op: dict[str, Any], r: dict[str, Any], x: dict[str, Any], c: int) -> None:
+    """The caller of a suspended lookup gives up (cancels it)."""
+    lid = op["lid"]
+    results = [s for s in r["res"] if s.startswith("task ")]
+    role = None
+    for fid in sorted(x["pending"]):
+        if x.get("pending_lid", {}).get(fid) == lid:
+            role = ("gen", fid)
+        elif lid in x.get("wl", {}).get(fid, []):
+            role = ("wait", fid)
+    if role is None:
+        return
+    mine = [s for s in results if s.startswith(f"task {lid} ")]
+    if mine != [f"task {lid} [raisedExc cancelled]"]:
+        sh.flag("C04", f"step {i}: the cancelled lookup {lid} reported {mine}")
+    fid = role[1]
+    if role[0] == "wait":
+        n = x["wl"][fid].index(lid)
+        del x["wl"][fid][n]
+        del x["waiters"][fid][n]
+        if len(results) != 1:
+            sh.flag("C04", f"step {i}: cancelling a lookup that only waited for a generation affected other lookups: {results}")
+        expect_events(sh, i, r, [], c)
+        return
+    # the lookup that was running the factory: the generation is abandoned, the waiting lookups look again
+    x["pending"].discard(fid)
+    x["pending_key"].pop(fid)
+    x["pending_lid"].pop(fid, None)
+    waiters = x.get("waiters", {}).pop(fid, [])
+    wl = x.get("wl", {}).pop(fid, [])
+    missing = regenerate(x, fid, waiters, wl, r.get("next"))
+    vals = [s for s in results if "val " in s]
+    if len(vals) != len(waiters) - len(missing):
+        sh.flag("C04", f"step {i}: {len(vals)} waiting lookups returned after the generation they waited for was abandoned, "
+                       f"expected {len(waiters) - len(missing)}")
+    expect_events(sh, i, r, [], c)
 
 
 def monitor_exit(sh: Shadow, i: int, op: dict[str, Any], r: dict[str, Any]) -> None:
@@ -534,10 +600,15 @@ def monitor_exit(sh: Shadow, i: int, op: dict[str, Any], r: dict[str, Any]) -> N
     x["tds"] = []
     # lookups still suspended on a factory when their context is closed are outside every
     # statement (the context is no longer usable): not judged further
+    if x.get("suspended") and not x["pending"]:
+        sh.flag("C04,C06", f"step {i}: lookups {sorted(x['suspended'])} in context {c} never returned although no generation "
+                           f"was in flight any more (a lost wake-up)")
     if x["pending"]:
         x["abandoned"] = True
     x["pending"] = set()
     x.pop("waiters", None)
+    x.pop("wl", None)
+    x.pop("suspended", None)
     sh.cur[t] = x["token"]
     if x["parent"] is not None and x["parent"] in sh.ctx:
         sh.ctx[x["parent"]]["children"].discard(c)
